@@ -199,6 +199,22 @@ fn outs(xml: &str) -> Result<Outs, String> {
     Ok(Outs { shape, speech: api::speech().map_err(|_| ()), braille: api::braille("").map_err(|_| ()) })
 }
 
+/// separators chosen through Language + the user-level preference DecimalSeparator ('.', ',' or Auto = by language),
+/// in both orders of the two calls: an explicit mark is the decimal mark whatever the language, Auto follows the language
+fn user_locales() -> Vec<(Locale, Vec<String>)> {
+    let mut out = vec![];
+    for (lang, auto) in [("en", "."), ("en-gb", "."), ("zh-tw", "."), ("es", ","), ("sv", ","), ("fi", ","), ("vi", ",")] {
+        for sep in ["Auto", ".", ","] {
+            for order in ["0", "1"] {
+                let decimal = if sep == "Auto" { auto } else { sep };
+                let block_char = if decimal == "." { "," } else { "." };
+                out.push((Locale { name: format!("user:{}:{}:{}", lang, sep, order), block: format!("{} \u{a0}\u{202f}", block_char), decimal: decimal.to_string() }, vec![block_char.to_string(), "\u{a0}".to_string()]));
+            }
+        }
+    }
+    out
+}
+
 pub fn locales16() -> Vec<(Locale, Vec<String>)> {
     // (locale, block separators a generator may use in that locale)
     let l = locales();
@@ -208,6 +224,9 @@ pub fn locales16() -> Vec<(Locale, Vec<String>)> {
         (l[2].clone(), vec!["'".into(), "\u{a0}".into()]),
         (l[3].clone(), vec!["\u{a0}".into(), "\u{202f}".into()]),
     ]
+    .into_iter()
+    .chain(user_locales())
+    .collect()
 }
 
 impl Property for C16 {
@@ -216,7 +235,10 @@ impl Property for C16 {
         "C16"
     }
     fn strategy(&self, _tier: Tier) -> BoxedStrategy<Case> {
-        let loc = proptest::sample::select(locales16());
+        // half of the cases set the separator pair directly, half go through Language + DecimalSeparator
+        let all = locales16();
+        let (user, direct): (Vec<_>, Vec<_>) = all.into_iter().partition(|(l, _)| l.name.starts_with("user:"));
+        let loc = prop_oneof![1 => proptest::sample::select(direct), 1 => proptest::sample::select(user)].boxed();
         let num = (loc.clone(), "[1-9][0-9]{0,2}", proptest::collection::vec("[0-9]{3}", 0..3), proptest::option::weighted(0.5, "[0-9]{1,4}"), any::<bool>(), any::<u8>(), 0..10u8).prop_map(|((locale, blocks), lead, rest, frac, trailing, bsel, lead_kind)| {
             let block = blocks[(bsel as usize * blocks.len()) >> 8].clone();
             let decimal = locale.decimal.chars().next().unwrap().to_string();
